@@ -92,6 +92,21 @@ def _entries():
         w.data.append(lt.field.Field(data=d2, offset=[1, 0]))
         return {'field1': d1, 'field2': d2}, lambda: (w.field, w.intensity)
 
+    @reg('Wavefront.field/intensity (second field inside the first)')
+    def _(W, lt):
+        w = lt.Wavefront.empty(wavelength=W.real('lam', pos=True), shape=(2, 3))
+        d1, d2, d3 = W.complexes('z1', (2, 3)), W.complexes('z2', (1, 2)), W.complexes('z3', (1, 1))
+        w.data.append(lt.field.Field(data=d1, offset=[0, 0]))
+        w.data.append(lt.field.Field(data=d2, offset=[0, 0]))
+        w.data.append(lt.field.Field(data=d3, offset=[-1, 1]))
+        return {'field1': d1, 'field2': d2, 'field3': d3, 'field1 as held by the wavefront': w.data[0].data}, lambda: (w.intensity, w.field, w.intensity)
+
+    @reg('field.merge / reduce')
+    def _(W, lt):
+        d1, d2 = W.complexes('z1', (2, 2)), W.complexes('z2', (2, 1))
+        a, b = lt.field.Field(data=d1, offset=[0, 0]), lt.field.Field(data=d2, offset=[0, 0])
+        return {'a': d1, 'b': d2, 'a.data': a.data, 'b.data': b.data}, lambda: (lt.field.merge(a, b).data, [f.data for f in lt.field.reduce([a, b])])
+
     @reg('Wavefront.insert(out)')
     def _(W, lt):
         w = lt.Wavefront.empty(wavelength=W.real('lam', pos=True), shape=(2, 2))
@@ -144,6 +159,17 @@ def _entries():
         img = W.reals('img', (1, 2))
         seed, el = W.int('seed', 0, 99), W.real('el', pos=True)
         return {'frame': img}, lambda: lt.detector.read_noise(img, el, seed=seed)
+
+    @reg('dark_current (pattern noise)')
+    def _(W, lt):
+        rate = W.reals('rate', (1, 2), nonneg=True, hi=100)
+        seed, fpn = W.int('seed', 0, 99), W.real('fpn', pos=True, hi=1)
+        return {'rate': rate}, lambda: lt.detector.dark_current(rate, shape=(1, 2), fpn_factor=fpn, seed=seed)
+
+    @reg('rule07_dark_current (pattern noise)')
+    def _(W, lt):
+        seed, fpn, T = W.int('seed', 0, 99), W.real('fpn', pos=True, hi=1), W.real('T', lo=100, hi=300)
+        return {}, lambda: lt.detector.rule07_dark_current(T, 5e-6, 5e-6, shape=(1, 2), fpn_factor=fpn, seed=seed)
 
     @reg('detector.pixel')
     def _(W, lt):
@@ -274,7 +300,7 @@ def run_mut(W, cfg):
             warnings.simplefilter('ignore')
             r2 = thunk()
         _same(W, cfg['entry'] + ' (2nd call)', owned, snap)
-        if cfg['entry'] in ('shot_noise', 'read_noise'):
+        if cfg['entry'] in ('shot_noise', 'read_noise', 'dark_current (pattern noise)', 'rule07_dark_current (pattern noise)'):
             with warnings.catch_warnings():
                 warnings.simplefilter('ignore')
                 r3 = thunk()
